@@ -697,11 +697,11 @@ func (m *Memory) FindLatest(
 		}
 		// MTimeStates
 		for i, state := range s.MTimeStates {
-			db = db.Where(state+".m_time >= ?", s.MTime[i])
+			db = db.Where(state+".tick >= ?", s.MTime[i])
 			joins = append(joins, state)
 		}
 		for i, state := range e.MTimeStates {
-			db = db.Where(state+".m_time <= ?", e.MTime[i])
+			db = db.Where(state+".tick <= ?", e.MTime[i])
 			joins = append(joins, state)
 		}
 
@@ -742,21 +742,23 @@ func (m *Memory) FindLatest(
 		// MTimeDiff
 		if s.MTimeDiff != 0 && e.MTimeDiff != 0 {
 			db = db.Where(
-				"times.m_time_diff >= ? AND times.m_time_diff <= ?",
+				"times.m_time_diff_sum >= ? AND times.m_time_diff_sum <= ?",
 				s.MTimeDiff, e.MTimeDiff,
 			)
 		}
 		// MTimeTrackedDiff
 		if s.MTimeTrackedDiff != 0 && e.MTimeTrackedDiff != 0 {
 			db = db.Where(
-				"times.m_time_tracked_diff >= ? AND times.m_time_tracked_diff <= ?",
+				"times.m_time_tracked_diff_sum >= ? AND "+
+					"times.m_time_tracked_diff_sum <= ?",
 				s.MTimeTrackedDiff, e.MTimeTrackedDiff,
 			)
 		}
 		// MTimeRecordDiff
 		if s.MTimeRecordDiff != 0 && e.MTimeRecordDiff != 0 {
 			db = db.Where(
-				"times.m_time_record_diff >= ? AND times.m_time_record_diff <= ?",
+				"times.m_time_record_diff_sum >= ? AND "+
+					"times.m_time_record_diff_sum <= ?",
 				s.MTimeRecordDiff, e.MTimeRecordDiff,
 			)
 		}
